@@ -1922,6 +1922,105 @@ func genGlue() string {
 		sb.WriteString("/-- … and to RegisterGlobalOption (sorted) -/\n")
 		sb.WriteString("def registeredGlobalOptions : List String := " + leanStrList(opts) + "\n")
 	}
+
+	// C11: the range statements of automaticHTTPSPhase1
+	{
+		_, f := parseFile("modules/caddyhttp/autohttps.go")
+		fd := findFunc(f, "App", "automaticHTTPSPhase1")
+		var rs []string
+		if fd != nil {
+			ast.Inspect(fd.Body, func(x ast.Node) bool {
+				r, ok := x.(*ast.RangeStmt)
+				if !ok {
+					return true
+				}
+				kind, what := "plain", exprText(r.X)
+				if ce, ok := r.X.(*ast.CallExpr); ok {
+					if se, ok := ce.Fun.(*ast.SelectorExpr); ok && exprText(se.X) == "slices" && se.Sel.Name == "Sorted" && len(ce.Args) == 1 {
+						if in, ok := ce.Args[0].(*ast.CallExpr); ok {
+							if ise, ok := in.Fun.(*ast.SelectorExpr); ok && exprText(ise.X) == "maps" && ise.Sel.Name == "Keys" && len(in.Args) == 1 {
+								kind, what = "sortedkeys", exprText(in.Args[0])
+							}
+						}
+					}
+				}
+				rs = append(rs, "("+leanStr(kind)+", "+leanStr(what)+")")
+				return true
+			})
+		}
+		sb.WriteString("\n/-- modules/caddyhttp/autohttps.go automaticHTTPSPhase1: every `range` statement in source order: (`sortedkeys`, m) for\n    `range slices.Sorted(maps.Keys(m))`, else (`plain`, the ranged expression) -/\n")
+		sb.WriteString("def autoHTTPSRanges : List (String × String) := [" + strings.Join(rs, ", ") + "]\n")
+	}
+
+	// C07: default index names
+	{
+		_, f := parseFile("modules/caddyhttp/fileserver/staticfiles.go")
+		var names []string
+		if f != nil {
+			for _, d := range f.Decls {
+				gd, ok := d.(*ast.GenDecl)
+				if !ok {
+					continue
+				}
+				for _, sp := range gd.Specs {
+					vs, ok := sp.(*ast.ValueSpec)
+					if !ok {
+						continue
+					}
+					for i, n := range vs.Names {
+						if n.Name == "defaultIndexNames" && i < len(vs.Values) {
+							if cl, ok := vs.Values[i].(*ast.CompositeLit); ok {
+								names = strLits(cl)
+							}
+						}
+					}
+				}
+			}
+		}
+		sb.WriteString("\n/-- modules/caddyhttp/fileserver/staticfiles.go: the literals of `var defaultIndexNames` -/\n")
+		sb.WriteString("def defaultIndexNames : List String := " + leanStrList(names) + "\n")
+	}
+
+	// C18: which operands the consumers hand to the replacer
+	{
+		var rows []string
+		for _, rel := range []string{"modules/caddyhttp/map/map.go", "modules/caddyhttp/headers/headers.go", "modules/caddyhttp/rewrite/rewrite.go", "modules/caddyhttp/vars.go", "modules/caddyhttp/staticresp.go"} {
+			_, f := parseFile(rel)
+			if f == nil {
+				continue
+			}
+			for _, d := range f.Decls {
+				fd, ok := d.(*ast.FuncDecl)
+				if !ok || fd.Body == nil {
+					continue
+				}
+				ast.Inspect(fd.Body, func(x ast.Node) bool {
+					ce, ok := x.(*ast.CallExpr)
+					if !ok {
+						return true
+					}
+					se, ok := ce.Fun.(*ast.SelectorExpr)
+					if !ok {
+						return true
+					}
+					switch se.Sel.Name {
+					case "ReplaceAll", "ReplaceKnown", "ReplaceOrErr", "ReplaceFunc":
+						// only calls on a replacer (not strings.ReplaceAll etc.)
+						if id, ok := se.X.(*ast.Ident); ok && (id.Name == "strings" || id.Name == "bytes") {
+							return true
+						}
+						if len(ce.Args) == 0 {
+							return true
+						}
+						rows = append(rows, "("+leanStr(filepath.Base(rel))+", "+leanStr(fd.Name.Name)+", "+leanStr(se.Sel.Name)+", "+leanStr(exprText(ce.Args[0]))+")")
+					}
+					return true
+				})
+			}
+		}
+		sb.WriteString("\n/-- every call of a Replacer's ReplaceAll / ReplaceKnown / ReplaceOrErr / ReplaceFunc in the consumers C18 models\n    (map.go, headers.go, rewrite.go, vars.go, staticresp.go), in source order: (file, function, method, first argument) -/\n")
+		sb.WriteString("def replacerCallSites : List (String × String × String × String) := [\n  " + strings.Join(rows, ",\n  ") + "\n]\n")
+	}
 	sb.WriteString(footer)
 	return sb.String()
 }
